@@ -100,7 +100,9 @@ func listingReplay(args []string) error {
 		case "splits":
 			did := newDiamond(1)
 			for n, o := range c.Objs {
-				sid := fmt.Sprintf("s%d", n+1)
+				// split ids that look like descriptor file names
+				sid := []string{"diamond-%d", "split-%d", "s%d"}[n%3]
+				sid = fmt.Sprintf(sid, n+1)
 				first := true
 				lists := o.Before
 				if o.Final {
@@ -135,6 +137,7 @@ func listingReplay(args []string) error {
 				}
 				exp = append(exp, sid+"="+st)
 			}
+			sort.Strings(exp)
 			for _, p := range pageSizes {
 				for _, conc := range []int{1, 4} {
 					r.Steps++
@@ -158,7 +161,7 @@ func listingReplay(args []string) error {
 				did := newDiamond(n + 1)
 				for k := 0; k < o.After; k++ {
 					// a split with only its running marker
-					if err := e.splitRun(repo, did, fmt.Sprintf("x%d", k), 2, "stub"); err != nil {
+					if err := e.splitRun(repo, did, fmt.Sprintf([]string{"diamond-x%d", "split-x%d"}[k%2], k), 2, "stub"); err != nil {
 						panic(err)
 					}
 				}
